@@ -138,9 +138,10 @@ META['C07'] = {
     'technique': 'Verus contracts on extracted real FRI gadget functions + the shape-validation prefix of verify_fri_circuit',
     'text': 'Deductive proof over an abstract field of the arithmetic building blocks of the in-circuit FRI verifier: one_hot_from_two/three_bits give the indicator of the little-endian index for '
             'boolean bits, arity2_fold_at_point is the native arity-2 fold e0 + (beta - x0)(e1 - e0)(-1/2)/x0, evaluate_polynomial is Horner evaluation of the final polynomial for every length, '
-            'circuit_exp_by_constant is x^n for every n > 0 (square-and-multiply invariant with bit-vector lemmas); and the validation prefix of verify_fri_circuit returns Ok only with every length '
+            'circuit_exp_by_constant is x^n for every n > 0 (square-and-multiply invariant with bit-vector lemmas), reconstruct_evals rebuilds the native evaluation row for every arity (the folded value at the '
+            'little-endian index of the boolean index bits, the siblings in order around it: closed forms for arity 1/2/4/8 and the generic one-hot + cumulative-sum path); and the validation prefix of verify_fri_circuit returns Ok only with every length '
             'fact the fold/query wiring indexes with.',
-    'note': 'GADGET KERNEL ONLY. Not under contract: one_hot_from_four_bits / one_hot_from_bits (generic arity), reconstruct_evals, fold_one_phase / fold_chain_circuit wiring, open_input height grouping, '
+    'note': 'GADGET KERNEL ONLY. Not under contract: one_hot_from_four_bits / one_hot_from_bits (generic arity; assumed callee of reconstruct_evals), fold_one_phase / fold_chain_circuit wiring, open_input height grouping (a seeded change there — unified-z fast path keyed on the first matrix — is NOT detected: BTreeMap/closure code outside the normaliser), '
             'proof-of-work, Merkle openings (C08), and the iff with the native verifier. Builder arithmetic contracts are assumed; -1/2 and bit_length are abstracted constants/stubs.',
 }
 
